@@ -274,7 +274,7 @@ def _duplicates(prog: Program, col: Collector, refs: Refs, cat: Catalogue):
             continue
         if r.registry.startswith("?") or any(isinstance(p, ast.Starred) for p in r.pattern):
             continue  # patterns computed at run time (factories) are not comparable statically
-        for sig in _expand(r.pattern):
+        for sig in cat.expand_pattern(r):
             # resolve each element to a canonical name where possible so that aliases compare equal
             groups.setdefault((r.registry, _config(r.module.name)), []).append((sig, r))
     n_disp = 0
